@@ -381,15 +381,29 @@ pub fn project(ex: &mut CommandExecutor, now: u64) -> Value {
 
 /// Execute one command at time `now` and log the event.
 pub fn step(ex: &mut CommandExecutor, run: usize, now: u64, c: &Value, argv: &Argv, out: &mut Out) -> Value {
+    step_via(ex, run, now, c, argv, "direct", out)
+}
+
+/// `via`: "direct", or "call" / "pcall": the command is issued by a one-line Lua script (C16).
+pub fn step_via(ex: &mut CommandExecutor, run: usize, now: u64, c: &Value, argv: &Argv, via: &str, out: &mut Out) -> Value {
     ex.set_time(VirtualTime::from_millis(now));
     let res = catch(|| match parse_argv(argv) {
         Ok(cmd) => {
             let ro = cmd.is_read_only();
-            (ex.execute(&cmd), ro)
+            if via == "direct" {
+                (ex.execute(&cmd), ro)
+            } else {
+                let mut a: Argv = vec![b("EVAL"), b(&format!("return redis.{via}(table.unpack(ARGV))")), b("0")];
+                a.extend(argv.iter().cloned());
+                match parse_argv(&a) {
+                    Ok(script) => (ex.execute(&script), ro),
+                    Err(e) => (RespValue::err(format!("FRAME {e}")), false),
+                }
+            }
         }
         Err(e) => (RespValue::err(e), false),
     });
-    let mut ev = json!({"a": "cmd", "run": run, "now": now, "c": c, "argv": argv.iter().map(|a| String::from_utf8_lossy(a).to_string()).collect::<Vec<_>>()});
+    let mut ev = json!({"a": "cmd", "run": run, "now": now, "c": c, "via": via, "argv": argv.iter().map(|a| String::from_utf8_lossy(a).to_string()).collect::<Vec<_>>()});
     match res {
         Ok((r, ro)) => {
             ev["r"] = rv_json(&r);
@@ -408,6 +422,10 @@ pub fn step(ex: &mut CommandExecutor, run: usize, now: u64, c: &Value, argv: &Ar
 }
 
 pub fn run_one(run: usize, gen: &mut Gen, len: usize, out: &mut Out) {
+    run_one_via(run, gen, len, &["direct"], out)
+}
+
+pub fn run_one_via(run: usize, gen: &mut Gen, len: usize, vias: &[&str], out: &mut Out) {
     let mut ex = CommandExecutor::new();
     let mut now: u64 = 1000;
     out.emit(&json!({"a": "reset", "run": run}));
@@ -426,7 +444,8 @@ pub fn run_one(run: usize, gen: &mut Gen, len: usize, out: &mut Out) {
             _ => now += 100_000,
         }
         let (c, argv) = gen.command();
-        let s = step(&mut ex, run, now, &c, &argv, out);
+        let via = vias[gen.rng.gen_range(0..vias.len())];
+        let s = step_via(&mut ex, run, now, &c, &argv, via, out);
         for e in s.as_array().unwrap() {
             if let Some(d) = e[3].as_i64() {
                 if d > 0 {
@@ -439,8 +458,13 @@ pub fn run_one(run: usize, gen: &mut Gen, len: usize, out: &mut Out) {
 
 /// TLC-generated scenario: [{"c": abstract command} | {"tick": n}]
 pub fn replay_one(run: usize, steps: &[Value], out: &mut Out) {
+    replay_one_via(run, steps, &["direct"], out)
+}
+
+pub fn replay_one_via(run: usize, steps: &[Value], vias: &[&str], out: &mut Out) {
     let mut ex = CommandExecutor::new();
     let mut now: u64 = 0;
+    let mut nth = 0usize;
     out.emit(&json!({"a": "reset", "run": run}));
     for st in steps {
         if let Some(t) = st.get("tick") {
@@ -449,7 +473,8 @@ pub fn replay_one(run: usize, steps: &[Value], out: &mut Out) {
         }
         let c = &st["c"];
         let argv = render(c);
-        step(&mut ex, run, now, c, &argv, out);
+        nth += 1;
+        step_via(&mut ex, run, now, c, &argv, vias[(run + nth) % vias.len()], out);
     }
 }
 
@@ -460,13 +485,21 @@ pub fn main(args: &[String]) -> i32 {
     match a.pos.first().map(|s| s.as_str()) {
         Some("replay") => {
             for (i, scn) in read_ndjson(&a.pos[1]).iter().enumerate() {
-                replay_one(i + 1, scn.as_array().unwrap(), &mut out);
+                let vias: Vec<&str> = match a.get("via") {
+                    Some("lua") => vec!["call", "pcall"],
+                    _ => vec!["direct"],
+                };
+                replay_one_via(i + 1, scn.as_array().unwrap(), &vias, &mut out);
             }
         }
         Some("record") => {
             let mut gen = Gen::new(a.u64("seed", 1), a.get("bias") == Some("fail"));
             for i in 0..a.usize("n", 50) {
-                run_one(i + 1, &mut gen, a.usize("len", 40), &mut out);
+                let vias: Vec<&str> = match a.get("via") {
+                    Some("lua") => vec!["call", "pcall", "direct"],
+                    _ => vec!["direct"],
+                };
+                run_one_via(i + 1, &mut gen, a.usize("len", 40), &vias, &mut out);
             }
         }
         _ => {
